@@ -288,6 +288,76 @@ bool build_artefact(const Plan &plan, Bytes &file, Bytes &plain, XzInfo &info, s
 	return true;
 }
 
+bool lz_build_member(const Bytes &in, int version, uint8_t dict_code, Bytes &out, std::string &err)
+{
+	uint32_t b2log = dict_code & 0x1F, fracnum = dict_code >> 5;
+	uint32_t dict = (1u << b2log) - (fracnum ? (fracnum << (b2log - 4)) : 0);
+	lzma_options_lzma lz;
+	lzma_lzma_preset(&lz, 1);
+	lz.lc = 3; lz.lp = 0; lz.pb = 2;
+	lz.dict_size = dict < 4096 ? 4096 : dict;
+	lzma_filter f[2] = { { LZMA_FILTER_LZMA1, &lz }, { LZMA_VLI_UNKNOWN, nullptr } };
+	lzma_stream s = LZMA_STREAM_INIT;
+	lzma_ret r = lzma_raw_encoder(&s, f);
+	if (r != LZMA_OK) { err = fmt("raw_encoder %s", ret_name(r)); return false; }
+	size_t start = out.size();
+	static const uint8_t magic[4] = { 'L', 'Z', 'I', 'P' };
+	out.insert(out.end(), magic, magic + 4);
+	out.push_back((uint8_t)version);
+	out.push_back(dict_code);
+	Bytes buf(65536);
+	s.next_in = in.data(); s.avail_in = in.size();
+	for (;;) {
+		s.next_out = buf.data(); s.avail_out = buf.size();
+		r = lzma_code(&s, LZMA_FINISH);
+		out.insert(out.end(), buf.data(), buf.data() + (buf.size() - s.avail_out));
+		if (r == LZMA_STREAM_END) break;
+		if (r != LZMA_OK) { lzma_end(&s); err = fmt("lzma_code %s", ret_name(r)); return false; }
+	}
+	lzma_end(&s);
+	uint32_t crc = lzma_crc32(in.data(), in.size(), 0);
+	for (int i = 0; i < 4; ++i) out.push_back((uint8_t)(crc >> (8 * i)));
+	uint64_t ds = in.size();
+	for (int i = 0; i < 8; ++i) out.push_back((uint8_t)(ds >> (8 * i)));
+	if (version >= 1) {
+		uint64_t ms = out.size() - start + 8;
+		for (int i = 0; i < 8; ++i) out.push_back((uint8_t)(ms >> (8 * i)));
+	}
+	return true;
+}
+
+bool lzma_build(const Bytes &in, const lzma_options_lzma *opt, Bytes &out, std::string &err)
+{
+	lzma_stream s = LZMA_STREAM_INIT;
+	lzma_ret r = lzma_alone_encoder(&s, opt);
+	if (r != LZMA_OK) { err = fmt("alone_encoder %s", ret_name(r)); return false; }
+	Bytes buf(65536);
+	s.next_in = in.data(); s.avail_in = in.size();
+	for (;;) {
+		s.next_out = buf.data(); s.avail_out = buf.size();
+		r = lzma_code(&s, LZMA_FINISH);
+		out.insert(out.end(), buf.data(), buf.data() + (buf.size() - s.avail_out));
+		if (r == LZMA_STREAM_END) break;
+		if (r != LZMA_OK) { lzma_end(&s); err = fmt("lzma_code %s", ret_name(r)); return false; }
+	}
+	lzma_end(&s);
+	return true;
+}
+
+bool read_test_file(const std::string &name, Bytes &out)
+{
+	const char *repo = getenv("VERIF_REPO");
+	std::string path = std::string(repo ? repo : "/repo") + "/tests/files/" + name;
+	FILE *f = fopen(path.c_str(), "rb");
+	if (!f) return false;
+	out.clear();
+	uint8_t buf[65536];
+	size_t n;
+	while ((n = fread(buf, 1, sizeof buf, f)) > 0) out.insert(out.end(), buf, buf + n);
+	fclose(f);
+	return true;
+}
+
 // ------------------------------------------------------ storage faults
 void gen_storage_faults(Rng &rng, Plan &plan, int max_faults)
 {
